@@ -43,7 +43,8 @@ def swarm(r, table, p_drop=0.25):
 
 def base_cfg(r, tier):
     cfg = {
-        "profile": r.choice(["ints", "ints", "strs", "mixed", "ints", "strs", "mixed", "wide", "npints"]),
+        "profile": r.choice(["ints", "ints", "strs", "mixed", "ints", "strs", "mixed", "wide", "npints"])
+        if r.random() > 0.04 else "large",
         "faults": False,
         "fault_rate": 0.0,
         "fault_kinds": [],
